@@ -26,7 +26,7 @@ ASSUMPTIONS = ["a record with one unlisted chromosome AND an out-of-range positi
                "the tabix loader is fed upper-triangular, position-sorted input as it requires; for streaming loaders 'rejected' means: "
                "the run fails, or the record is not counted in any pixel",
                "pairix loader not exercised (pypairix not installed)"]
-EXPECT_CLASSES = {"*": ["bins-form", "chunk:categorical-chromosomes", "binsizes", "rec:kept", "rec:reflected", "rec:dropped-unknown", "rec:dropped-lower", "rec:refused", "loader:cload-pairs",
+EXPECT_CLASSES = {"*": ["chunk:missing-chromosome-name", "bins-form", "chunk:categorical-chromosomes", "binsizes", "rec:kept", "rec:reflected", "rec:dropped-unknown", "rec:dropped-lower", "rec:refused", "loader:cload-pairs",
                         "loader:load-coo", "loader:load-bg2", "loader:tabix", "loader:tabix-schedule"]}
 
 TRIL = ["reflect", "drop", "raise", None]
@@ -219,6 +219,30 @@ def _records_table(R, table, flavour, tier, only, tindex=0):
                             R.mismatch("record-in-wrong-pixel:categorical-chromosome-columns", innerC, f"categories={cats} differences (row, pixel)={bad}")
                     except Exception as ex:
                         R.mismatch("valid-chunk-raises:" + type(ex).__name__, innerC, f"{ex!s:.300}")
+                # -- the same chunk with the unlisted chromosome spelled as a MISSING value (None / NaN in an object column - what a text
+                #    reader makes of a contig called NA or null): still a record on an unlisted chromosome, dropped like any other
+                for missing in ("None", "NaN"):
+                    innerM = {"table": tname, "names": flavour, "opt": opt, "chunk": "all-valid:unlisted-name-is-" + missing}
+                    if sided or not (only is None or only == innerM):
+                        continue
+                    R.c["transitions"] += 1
+                    R.c["evaluations"] += 1
+                    R.c["nontrivial"] += 1
+                    R.classes["chunk:missing-chromosome-name"] += 1
+                    recs = [allrecs[k] for k in okidx]
+                    fr = _frame(recs, tags=False)
+                    mv = None if missing == "None" else float("nan")
+                    for col in ("chrom1", "chrom2"):
+                        fr[col] = pd.Series([mv if c == UNKNOWN else c for c in fr[col]], dtype=object)
+                    try:
+                        out = san(fr)
+                        gotM = {int(ix): (int(b1), int(b2)) for ix, b1, b2 in zip(out.index, out["bin1_id"], out["bin2_id"])}
+                        wantM = {pos: (exp[k][1], exp[k][2]) for pos, k in enumerate(okidx) if exp[k][0] == "kept"}
+                        if gotM != wantM:
+                            bad = sorted(set(gotM.items()) ^ set(wantM.items()))[:6]
+                            R.mismatch("record-with-missing-chromosome-name-counted-or-valid-record-misplaced", innerM, f"differences (row, pixel)={bad}")
+                    except Exception as ex:
+                        R.mismatch("valid-chunk-raises:" + type(ex).__name__, innerM, f"{ex!s:.300}")
                 # -- the same chunk against the SAME bin table handed over in another form (row labels that are not 0..n-1, int32
                 #    coordinates, chromosome column as plain strings / unordered categorical): the table's content decides, not its form
                 for bform in (("offset-labels", "reversed-labels", "string-labels", "repeated-labels", "int32-coordinates", "object-chrom", "unordered-categorical")
@@ -537,7 +561,16 @@ def _loaders(R, B, k, only):
     # ---- cload pairs ----
     for ob in (0, 1):
         pf0 = os.path.join(d, f"all_{ob}.pairs")
-        _write_lines(pf0, [("r%d" % q, r[0], r[1] + ob, r[2], r[3] + ob, "+", "-") for q, r in enumerate(recs)])
+        # interleaved: records on unlisted contigs that are literally called NA / null / NaN (a text reader turns these tokens into
+        # missing values); like every record on an unlisted chromosome they are dropped, whatever follows or precedes them
+        lines0 = []
+        for q, r in enumerate(recs):
+            if q % 4 == 0:
+                lines0.append(("m%d" % q, ("NA", "null", "NaN")[q // 4 % 3], 1 + ob, r[2], r[3] + ob, "+", "-"))
+                lines0.append(("n%d" % q, r[0], r[1] + ob, ("NA", "null", "NaN")[q // 4 % 3], 1 + ob, "+", "-"))
+            lines0.append(("r%d" % q, r[0], r[1] + ob, r[2], r[3] + ob, "+", "-"))
+        lines0.append(("mz", "NA", 1 + ob, "NA", 2 + ob, "+", "-"))
+        _write_lines(pf0, lines0)
         # the same records below a .pairs header (lines starting with '#', which every pairs file written by pairtools has)
         pfh = os.path.join(d, f"allh_{ob}.pairs")
         _write_lines(pfh, [("r%d" % q, r[0], r[1] + ob, r[2], r[3] + ob, "+", "-") for q, r in enumerate(recs)],
